@@ -132,6 +132,18 @@ def twin(rng, spec):
             q = rng.choice(spec['Q'])
             t['F'] = [x for x in spec['F'] if x != q] if q in spec['F'] else spec['F'] + [q]
         return t
+    if k == 'regexp':
+        # same printed form, other meaning: the symbol '0' / '1' versus the constant 0 / 1
+        def swap(node):
+            if node[0] == 'sym' and node[1] in ('0', '1'):
+                return [node[1]]
+            if node[0] in ('0', '1'):
+                return ['sym', node[0]]
+            if node[0] == 'sym':
+                return list(node)
+            return [node[0]] + [swap(x) for x in node[1:]]
+        t['tree'] = swap(spec['tree'])
+        return t if t['tree'] != spec['tree'] else None
     if k == 'cfg':
         others = [v for v in spec['V'] if v != spec['S']]
         if not others:
